@@ -1083,6 +1083,27 @@ func (vc *VC) modSetCall(c *ssa.CallCommon, set map[string]bool, onpath map[*ssa
 			return
 		}
 		if n, ok := types.Unalias(c.Value.Type()).(*types.Named); ok && n.Obj().Pkg() != nil && vc.P.RepoPkgs[n.Obj().Pkg().Path()] {
+			// closed world (as in invoke): the union over the implementors' methods
+			if impls := vc.implementors(c.Value.Type()); len(impls) > 0 && len(impls) <= 8 {
+				for _, T := range impls {
+					m := vc.P.SSA.LookupMethod(T, c.Method.Pkg(), c.Method.Name())
+					if m == nil {
+						continue
+					}
+					if ct := vc.S.Contracts[funcKey(m)]; ct != nil {
+						vc.modSetContractT(ct, m, set, nil)
+						continue
+					}
+					if len(m.Blocks) == 0 {
+						set["*"] = true
+						continue
+					}
+					for k := range vc.modSet(m, onpath) {
+						set[k] = true
+					}
+				}
+				return
+			}
 			set["*"] = true
 			return
 		}
